@@ -281,8 +281,14 @@ func TestC16(t *testing.T) {
 			c.Stepf("%d listeners with tokens expiring at %v (disable=%v)", E, exp.Format("15:04:05.000"), disableExpiry)
 			quiesce("after connecting expiring listeners")
 			time.Sleep(time.Until(exp.Add(-300 * time.Millisecond)))
-			if msg := observe(); msg != "" {
-				c.Fatalf("C16: 300 ms before the token expiry a listener is already gone: %s", msg)
+			msg := observe()
+			if time.Now().Before(exp.Add(-30 * time.Millisecond)) {
+				if msg != "" {
+					c.Fatalf("C16: before the token expiry (%v ahead) a listener is already gone: %s", time.Until(exp), msg)
+				}
+				c.Class("checked-still-registered-before-expiry")
+			} else {
+				c.Class("pre-expiry-observation-too-slow(not-asserted)")
 			}
 			if disableExpiry {
 				time.Sleep(time.Until(exp.Add(time.Second)))
